@@ -212,6 +212,16 @@ def run(ctx):
             # (arithmetic the script itself gets wrong -- a division by zero, an overflow -- is its own run-time error, not the compiler's)
             if st.startswith('ABORT') and st not in ('ABORT:zerodiv', 'ABORT:overflow', 'ABORT:value'):
                 ctx.counterexample('C06/valid-expression-stops-the-machine', 'the accepted text %r stops the machine: %s after %r' % (t[:120], st, evs[-3:]), {'text': t})
+    # numbers of thousands of digits (int() refuses more than 4300: D67), in every position a number can take
+    for t in ['hue ' + '9' * 4301, 'hue -' + '9' * 5000, 'hue {' + '9' * 4400 + ' + 1}', 'define x ' + '1' * 4301, 'repeat ' + '7' * 4500 + ' begin end',
+              'hue 1.' + '9' * 5000, 'set "Strip" zone ' + '3' * 4301, 'hue ' + '9' * 4300, 'assign v ' + '8' * 20000]:
+        o = observe(t)
+        ctx.count()
+        ctx.nontriv(t)
+        if 'raises' in o:
+            ctx.counterexample('C06/compiler-raises-on-long-number', 'compiling a text with a %d-digit number raises %s' % (len(t), o['raises'][:120]), {'text': t})
+        elif not o['ok'] and (not o['errors'].strip() or o['line'] is None):
+            ctx.counterexample('C06/rejection-without-line', 'a text with a long number is rejected without a message that names a line', {'text': t})
     # every command with every operand form: what is accepted runs without an internal fault of the machine (D66: `on L row 1`)
     cmd_world = [('Candle', 'g', 'l', ('matrix', 5, 6)), ('Strip', 'g', 'l', ('multi', 8)), ('Top', 'h', 'l', ('plain',))]
     for action in ('set', 'on', 'off'):
